@@ -16,14 +16,14 @@
 /* a visit function stops a traversal with "a non-zero value": any of them, which the traversal must hand back unchanged */
 static const int stopvals[12] = { -3, -2, -1, 11, 1, 2, 3, 256, 65536, -65536, INT_MIN, INT_MAX };
 
-enum { T_INSERT = 1, T_FIND, T_ERASE, T_FOREACH, T_CLEAR, T_SWAP, T_HEIGHT, T_HUGE, T_CHURN };
+enum { T_INSERT = 1, T_FIND, T_ERASE, T_FOREACH, T_CLEAR, T_SWAP, T_HEIGHT, T_HUGE, T_CHURN, T_GIANT };
 
 static const char *t_opname(int k)
 {
     switch (k) {
     case T_INSERT: return "insert"; case T_FIND: return "find"; case T_ERASE: return "erase";
     case T_FOREACH: return "foreach"; case T_CLEAR: return "clear"; case T_SWAP: return "swap";
-    case T_HEIGHT: return "height"; case T_HUGE: return "huge"; case T_CHURN: return "churn";
+    case T_HEIGHT: return "height"; case T_HUGE: return "huge"; case T_CHURN: return "churn"; case T_GIANT: return "giant_churn";
     }
     return "?";
 }
@@ -363,10 +363,16 @@ static void nested_clear(void)
     PROBE("clear_callback_clears_other_trees");
 }
 
+static int plain_count;          /* see the lists world: read by an optimised, setjmp-free caller right after clear returns */
+static void clear_cb(void *obj, void *priv);
+static int bt_clear_plain(struct cstl_bintree *b, void *priv) { plain_count = 0; g_inlib = 1; cstl_bintree_clear(b, clear_cb, priv); g_inlib = 0; return plain_count; }
+static int rb_clear_plain(struct cstl_rbtree *r, void *priv) { plain_count = 0; g_inlib = 1; cstl_rbtree_clear(r, clear_cb, priv); g_inlib = 0; return plain_count; }
+
 static void clear_cb(void *obj, void *priv)
 {
     CB_ENTER();
     struct telem *e = ELM(obj);
+    plain_count++;
     int id = -1;
     if (reentrant) nested_clear();
     if (priv != (void *)&clr_id[0]) { nclr = -1000000; }       /* the outer callback's own private pointer must still arrive */
@@ -493,6 +499,88 @@ static void huge_tree(uint64_t nsel, uint64_t seed)
     if (n > maxreach) maxreach = (unsigned)n;
 }
 
+static size_t giant_mids;
+static void giant_clr(void *e, void *p) { (void)e; (void)p; }
+static int count_visit(const void *e, cstl_bintree_visit_order_t ord, void *p) { (void)e; (void)p; if (ord == CSTL_BINTREE_VISIT_ORDER_MID || ord == CSTL_BINTREE_VISIT_ORDER_LEAF) giant_mids++; return 0; }
+
+/* a counter that wraps at 2^32: the greatest element is inserted, found and erased; then a transient element is looked up
+ * (a miss), inserted with the reported parent as hint and erased again 2^31 times - 2^32 modifications without a
+ * successful lookup or an unhinted insert in between; then the erased key is looked up again and a new greatest element
+ * inserted. About a minute per run: thorough tier only. */
+static void giant_churn(int rbkind, unsigned sel, uint64_t variant)
+{
+    static struct cstl_bintree gb; static struct cstl_rbtree gr; static struct telem el[12], tr; static const void *ret, *par;
+    /* modifications since the greatest element went in and was found: its removal (1), 2^31 - 3 rounds of two
+     * modifications each, then single steps. The rounds are "look the transient element up (a miss), insert it with the
+     * reported parent as hint, erase it by key" or "insert it, clear the tree" (no lookup at all, not even the one inside
+     * erase-by-key). The removed key is looked up after every single step around 2^32, and a new greatest element goes in
+     * unhinted when the count is 2^32 - 1, 2^32 or 2^32 + 1. sel % 3: the count, sel / 3 % 2: the kind of round; variant: the keys. */
+    unsigned bits = getenv("SIM_GIANT_BITS") ? (unsigned)atoi(getenv("SIM_GIANT_BITS")) : 32;      /* (a smaller width only to try the harness itself out) */
+    uint64_t q, rounds = ((uint64_t)1 << (bits - 1)) - 3, total, target = ((uint64_t)1 << bits) + (uint64_t)(sel % 3) - 1;
+    int i, tr_in = 0, step, by_clear = (int)(sel / 3 % 2), nheld;
+    struct telem probe;
+    sim_watchdog(1500);
+    g_cur_prop = "C01"; g_cur_ctx = by_clear ? "giant-churn-insert-clear" : "giant-churn-insert-erase"; g_hnd = 0;
+    memset(&gb, 0x5c, sizeof gb); memset(&gr, 0x5c, sizeof gr);
+    if (rbkind) cstl_rbtree_init(&gr, cmp_plain, NULL, offsetof(struct telem, rn)); else cstl_bintree_init(&gb, cmp_plain, NULL, offsetof(struct telem, bn));
+#define G_INSERT(e, hint) do { if (rbkind) cstl_rbtree_insert(&gr, (e), (void *)(hint)); else cstl_bintree_insert(&gb, (e), (void *)(hint)); } while (0)
+#define G_FIND(e, parp) (rbkind ? cstl_rbtree_find(&gr, (e), (parp)) : cstl_bintree_find(&gb, (e), (parp)))
+#define G_ERASE(e) (rbkind ? cstl_rbtree_erase(&gr, (e)) : cstl_bintree_erase(&gb, (e)))
+#define G_CLEAR() do { if (rbkind) cstl_rbtree_clear(&gr, giant_clr, NULL); else cstl_bintree_clear(&gb, giant_clr, NULL); } while (0)
+    g_inlib = 1;
+    for (i = 0; i < 12; i++) {
+        el[i].magic = MAGIC; el[i].tail = ~MAGIC; el[i].id = i; el[i].key = (int)((variant >> (8 + i * 3)) % 50) + (i == 11 ? 1000 : 0);      /* el[11] is the greatest, inserted last */
+        G_INSERT(&el[i], NULL);
+    }
+    ret = G_FIND(&el[11], NULL);
+    g_inlib = 0;
+    if (ret != &el[11]) VIOLP("C01", "find_present", "the greatest element is not found");
+    g_inlib = 1;
+    if (by_clear) { G_CLEAR(); nheld = 0; } else { (void)G_ERASE(&el[11]); nheld = 11; }
+    total = 1;
+    tr.magic = MAGIC; tr.tail = ~MAGIC; tr.id = -9; tr.key = 5000;
+    for (q = 0; q < rounds; q++) {
+        if (by_clear) { G_INSERT(&tr, NULL); G_CLEAR(); }
+        else { par = NULL; (void)G_FIND(&tr, &par); G_INSERT(&tr, par); if (G_ERASE(&tr) != &tr) break; }
+    }
+    g_inlib = 0;
+    if (q != rounds) VIOLP("C01", "churn", "round %llu of lookup / hinted insert / erase of a transient element returned another element", (unsigned long long)q);
+    total += 2 * rounds;
+    probe = el[11];
+    sim_watchdog(60);      /* the long part is over: from here a run that does not end is a finding, not a slow run */
+    for (step = 0; step < 12; step++) {
+        /* one more modification */
+        g_inlib = 1;
+        if (!tr_in) { par = NULL; if (!by_clear) (void)G_FIND(&tr, &par); G_INSERT(&tr, par); tr_in = 1; }
+        else { if (by_clear) { G_CLEAR(); nheld = 0; } else (void)G_ERASE(&tr); tr_in = 0; }
+        g_inlib = 0;
+        total++;
+        TRY(ret = G_FIND(&probe, NULL));
+        if (ret != NULL) VIOLP("C01", "find_absent", "a key removed %llu modifications ago is found again", (unsigned long long)total);
+        if (total == target) break;
+    }
+    el[11].key = 2000;
+    TRY(G_INSERT(&el[11], NULL));
+    TRY(ret = G_FIND(&el[11], NULL));
+    if (ret != &el[11]) VIOLP("C01", "find_present", "an element inserted after %llu modifications is not found", (unsigned long long)total);
+    {
+        size_t n = rbkind ? cstl_rbtree_size(&gr) : cstl_bintree_size(&gb), want = (size_t)nheld + 1 + (size_t)tr_in;
+        if (n != want) VIOLP("C01", "size", "size is %zu after the churn, reference has %zu", n, want);
+        for (i = 0; i < nheld; i++) { TRY(ret = G_FIND(&el[i], NULL)); if (ret == NULL || ((const struct telem *)ret)->key != el[i].key) VIOLP("C01", "find_present", "after the churn a held element is not found by its key"); }
+        /* and the walk must meet exactly what is held */
+        giant_mids = 0;
+        { static int r2; TRY(r2 = rbkind ? cstl_rbtree_foreach(&gr, count_visit, NULL, CSTL_BINTREE_FOREACH_DIR_FWD) : cstl_bintree_foreach(&gb, count_visit, NULL, CSTL_BINTREE_FOREACH_DIR_FWD)); (void)r2; }
+        if (giant_mids != want) VIOLP("C01", "foreach_exactly_once", "after the churn a walk meets %zu elements, %zu are held", giant_mids, want);
+    }
+#undef G_INSERT
+#undef G_FIND
+#undef G_ERASE
+#undef G_CLEAR
+    PROBE("giant_churn_2^32_modifications");
+    EVT("giant_churn", rbkind, total, sel);
+    g_run.nontrivial = 1;
+}
+
 /* ---------------------------------------------------------------------- exec */
 
 static struct telem probe;
@@ -503,6 +591,7 @@ static void t_exec(const plan_t *p)
     int i, k, nb, nr;
 
     simheap_reset(&hc, p->cfg[CF_JUNK]);
+    simheap_far((int)p->cfg[CF_FAR]);
     nb = (int)p->cfg[CF_NB]; nr = (int)p->cfg[CF_NR];
     if (nb > 2) nb = 2; if (nr > 2) nr = 2; if (nb + nr == 0) nr = 1;
     nenabled = 0;
@@ -524,10 +613,24 @@ static void t_exec(const plan_t *p)
     case 4: g_hnd = (size_t)0 - (((size_t)1 << 32) + 24); PROBE("handles_2^32_before_the_node_members"); break;
     }
     for (i = 0; i < NT; i++) { tords[i].dir = (p->cfg[CF_STREAM] >> (20 + i) & 1) ? -1 : 1; mt[i].ord = &tords[i]; }
+    if (p->cfg[CF_DECL] && g_hnd == 0) {
+        /* the documented other way to get an empty tree: the initializer macros, with expressions as arguments */
+        int one = 1 + (int)(p->cfg[CF_JUNK] & 0), three = one + 2;
+        if (tkind[0]) { DECLARE_CSTL_BINTREE(t, struct telem, bn2, one ? cmp_key : &cmp_plain, tords + 0); bt[0] = t; }
+        else bt[0] = (struct cstl_bintree)CSTL_BINTREE_INITIALIZER(struct telem, bn, cmp_key, tords + (one - 1));
+        if (tkind[1]) bt[1] = (struct cstl_bintree)CSTL_BINTREE_INITIALIZER(struct telem, bn2, cmp_key, tords + one);
+        else { DECLARE_CSTL_BINTREE(t, struct telem, bn, cmp_key, tords + one); bt[1] = t; }
+        if (tkind[2]) { DECLARE_CSTL_RBTREE(t, struct telem, rn2, cmp_key, tords + three - 1); rb[0] = t; }
+        else rb[0] = (struct cstl_rbtree)CSTL_RBTREE_INITIALIZER(struct telem, rn, one ? cmp_key : &cmp_plain, tords + 2);
+        if (tkind[3]) rb[1] = (struct cstl_rbtree)CSTL_RBTREE_INITIALIZER(struct telem, rn2, cmp_key, tords + three);
+        else { DECLARE_CSTL_RBTREE(t, struct telem, rn, cmp_key, tords + three); rb[1] = t; }
+        PROBE("from_initializer_macro");
+    } else {
     cstl_bintree_init(&bt[0], cmp_key, &tords[0], node_off(0) - g_hnd);
     cstl_bintree_init(&bt[1], cmp_key, &tords[1], node_off(1) - g_hnd);
     cstl_rbtree_init(&rb[0], cmp_key, &tords[2], rbmember_off(2) - g_hnd);
     cstl_rbtree_init(&rb[1], cmp_key, &tords[3], rbmember_off(3) - g_hnd);
+    }
     probe.magic = MAGIC; probe.tail = ~MAGIC; probe.id = -1; probe.tree = -1;
     reentrant = 0;
     if (p->cfg[CF_STREAM] >> 8 & 1) {
@@ -553,6 +656,7 @@ static void t_exec(const plan_t *p)
         g_cur_prop = prop_of(t); g_cur_ctx = ctx_of(t);
         e = NULL; ret = NULL; par = NULL;
         if (o->kind == T_HUGE) { huge_tree(o->a[1], o->a[2]); continue; }
+        if (o->kind == T_GIANT) { giant_churn((int)(o->a[1] & 1), (unsigned)((o->a[1] >> 1) % 6), o->a[2]); continue; }
         if (o->kind == T_CHURN) {
             /* the n-th repetition: a transient element with a key of its own is inserted and erased 254 ... 65 536 times */
             static const unsigned reps[] = { 254, 255, 256, 65534, 65535, 65536 };
@@ -692,6 +796,11 @@ static void t_exec(const plan_t *p)
             for (i = 0; i < npre; i++) pre_ids[i] = m->e[i]->id;
             nclr = 0;
             m->since_clear = 0; g_cur_prop = "C15"; g_cur_ctx = ctx_of(t);
+            if (o->a[2] & 1) {
+                int seen = is_rb(t) ? rb_clear_plain(&rb[t - 2], &clr_id[0]) : bt_clear_plain(BT(t), &clr_id[0]);
+                if (seen != npre) VIOL(t, "callback_effects_invisible", "tree %d: clear of %d elements: the caller's own counter, written by the callback and read right after the call in an optimised function, says %d", t, npre, seen);
+                PROBE("clear_in_plain_function");
+            } else
             if (is_rb(t)) TRY(cstl_rbtree_clear(&rb[t - 2], clear_cb, &clr_id[0]));
             else TRY(cstl_bintree_clear(BT(t), clear_cb, &clr_id[0]));
             m->n = 0;
@@ -779,8 +888,16 @@ static void t_exec(const plan_t *p)
 
 static void t_gen(prng_t *r, int mode, plan_t *p)
 {
+    p->cfg[CF_FAR] = FAR_OF_INDEX();      /* element blocks 2^32 or 3 * 2^31 bytes apart in one run in seven each */
+    p->cfg[CF_DECL] = DECL_OF_INDEX();    /* one run in five starts from the initializer macros */
     int nops, i, longrun, small, stream;
     unsigned w_clear = mode == 15 ? 10 : 1;
+    if (mode == 120) {
+        op_t *o = plan_add(p, T_GIANT);
+        p->cfg[CF_NB] = 0; p->cfg[CF_NR] = 1; p->cfg[CF_KEYS] = 2; p->cfg[CF_JUNK] = 1 + prng_below(r, 254); p->cfg[CF_MAXN] = 8;
+        o->a[1] = g_gen_index; o->a[2] = prng_next(r);
+        return;
+    }
     if (mode == 102) {
         op_t *o = plan_add(p, T_HUGE);
         p->cfg[CF_NB] = 0; p->cfg[CF_NR] = 1; p->cfg[CF_KEYS] = 2; p->cfg[CF_JUNK] = 1 + prng_below(r, 254); p->cfg[CF_MAXN] = 8;
